@@ -86,9 +86,10 @@ def run_c17(ctx):
         if not ctx.thorough and n == 10000 and r.random() < 0.8:
             n = 300
         na = r.choice([2, 4, 6])
+        fam = r.choice([0, 0, 1000, 2000])
         s = []
         for _ in range(n):
-            k = r.choice(KINDS); a = r.randint(1, na)
+            k = r.choice(KINDS); a = r.randint(1, na) + (fam if r.random() < 0.5 else 0)
             s.append(k + str(a) + (":%d" % r.choice([0, 1, 408, 432, 1024]) if k in "rk" else ""))
         cases.append((r.choice([0, 1, 2, 3, 5, 100]), s))
     ctx.count("random_sequences", 300 if not ctx.thorough else 3000)
@@ -118,10 +119,12 @@ def run_c17(ctx):
     mcases = []
     for _ in range(400 if not ctx.thorough else 4000):
         nseg = r.randint(1, 4)
+        apool = r.choice([[1, 2, 3, 4], [1, 2, 1001, 1002], [1, 1001, 2001, 2002], [2001, 2002, 2003, 1003]])
         segs = []
         for _ in range(nseg):
             n = r.choice([0, 1, 3, 10, 50])
-            segs.append([(lambda k, a: k + str(a) + (":%d" % r.choice([1, 408]) if k in "rk" else ""))(r.choice(KINDS), r.randint(1, 4)) for _ in range(n)])
+            # plain IPv4, the IPv4-mapped IPv6 form of the same numbers (distinct clients) and IPv6
+            segs.append([(lambda k, a: k + str(a) + (":%d" % r.choice([1, 408]) if k in "rk" else ""))(r.choice(KINDS), r.choice(apool)) for _ in range(n)])
         mcases.append((r.choice([1, 2, 3, 10]), segs))
     mlines = ["merge %d %s" % (lim, "|".join(",".join(s) for s in segs)) for lim, segs in mcases]
     impl = vlib.run_impl(mlines)
